@@ -461,6 +461,81 @@ def two_word_token_cases():
     return cases
 
 
+def type_twin_return_programs():
+    """two (or three) return statements in ONE program whose group lists are equal element by element under == but not in type (1 / 1.0, 0 / 0.0 / -0.0,
+    2^53 / 9007199254740992.0), for 1..40 groups: what a renderer that remembers a group list by value replays with the other type"""
+    L = lambda t: lit_str(t, quote='"')
+    eq = lambda name: ("cmp", ("id", name), "==", ("lit", lit_int(1)))
+    cases = []
+    for n in (1, 2, 8, 9, 10, 20, 21, 40):
+        ints = ("ret", [(lit_int(i), "1") for i in range(n)])
+        floats = ("ret", [(lit_float("%d.0" % i), "1") for i in range(n)])
+        negz = ("ret", [(lit_float("-0.0") if i == 0 else lit_float("%d.0" % i), "1") for i in range(n)])
+        big_i = ("ret", [(lit_int(2 ** 53 + i), "1") for i in range(n)])
+        big_f = ("ret", [(lit_float("%d.0" % (2 ** 53 + 2 * (i // 2))), "1") for i in range(n)])
+        wi = ("ret", [(L("g%d" % i), "1") for i in range(n)])
+        wf = ("ret", [(L("g%d" % i), "1.0") for i in range(n)])
+        for name, a, b, c in (("int-float", ints, floats, negz), ("float-int", floats, ints, negz), ("negzero-first", negz, floats, ints), ("big", big_i, big_f, big_i), ("weights", wi, wf, wi)):
+            cond = ("if", eq("a"), a, ("elif", eq("b"), b, ("else", ("if", eq("c"), c, ("else", a)))))
+            envs = [{"u": "unit%d" % (5 * i + j), "a": i & 1, "b": (i >> 1) & 1, "c": (i >> 2) & 1} for i in range(8) for j in range(2)]
+            prog = Program("tt_%s_%d" % (name.replace("-", "_"), n), L("s"), ["u"], cond, {"u": "any", "a": "int", "b": "int", "c": "int"})
+            cases.append({"prog": prog, "text": render(prog, None, "plain"), "envs": envs})
+    return cases
+
+
+def nested_identifier_tuples():
+    """tuples of 1 .. 257 members none of which is a bare identifier, one of which is a nested tuple that holds an identifier (at the end, in the middle, at the start)"""
+    L = lambda t: lit_str(t, quote='"')
+    cases = []
+    for k in (1, 2, 3, 12, 13, 32, 33, 63, 64, 65, 66, 100, 129, 257):
+        for where in ("last", "middle", "first"):
+            members = [("lit", lit_int(1000 + i)) for i in range(k)]
+            nested = ("tuple", [("id", "region"), ("lit", lit_int(3))])
+            members.insert({"last": k, "middle": k // 2, "first": 0}[where], nested)
+            for op in ("in", "not in"):
+                cond = ("if", ("cmp", ("id", "x"), op, ("tuple", members)), ("ret", [(L("T"), "1")]), ("else", ("ret", [(L("F"), "1")])))
+                prog = Program("e", None, ["u"], cond, {"u": "any", "x": "any", "region": "any"})
+                envs = [{"u": "u1", "x": xv, "region": rv} for xv, rv in ((("eu", 3), "eu"), (("eu", 3), "us"), (1000, "eu"), (1000 + k - 1, "eu"), (7, 7), ((7, 3), 7), ([1], [1]))]
+                cases.append({"prog": prog, "text": render(prog, None, "plain"), "envs": envs})
+    return cases
+
+
+def long_decimal_literals():
+    """decimal literals of up to several thousand digits that sit on, just above and just below the MIDPOINT of two adjacent doubles (the exact, finite decimal
+    expansion of the midpoint, then a run of zeros and a final 1 — or the expansion lowered in its last digit and a run of nines): the literal denotes the double
+    nearest to its exact rational value, ties to even, however long it is.  Returns (text, expected double) pairs; expectation from exact rationals."""
+    from fractions import Fraction
+    import math
+
+    def expansion(q):          # exact decimal expansion of a dyadic rational 0 <= q
+        n, d = q.numerator, q.denominator
+        ip, rem = divmod(n, d)
+        digits = []
+        while rem:
+            rem *= 10
+            dg, rem = divmod(rem, d)
+            digits.append(str(dg))
+        return str(ip) + "." + ("".join(digits) or "0")
+
+    out = []
+    pairs = [(0.0, 5e-324), (5e-324, 1e-323), (1.0, math.nextafter(1.0, 2.0)), (0.1, math.nextafter(0.1, 1.0)), (2.2250738585072014e-308, math.nextafter(2.2250738585072014e-308, 1.0)),
+             (1e22, math.nextafter(1e22, math.inf)), (0.3, math.nextafter(0.3, 1.0)), (123456.789, math.nextafter(123456.789, math.inf))]
+    for lo, hi in pairs:
+        mid = (Fraction(lo) + Fraction(hi)) / 2
+        text = expansion(mid)
+        import struct
+        even = lo if struct.unpack("<Q", struct.pack("<d", lo))[0] % 2 == 0 else hi
+        out.append((text, even, "on the midpoint"))
+        for zeros in (0, 30, 400, 1100, 5000):
+            out.append((text + "0" * zeros + "1", hi, "above the midpoint by one unit in digit %d" % (len(text.split(".")[1]) + zeros + 1)))
+        last = text[-1]
+        if last != "0":
+            below = text[:-1] + str(int(last) - 1)
+            for nines in (1, 30, 400, 1100, 5000):
+                out.append((below + "9" * nines, lo, "below the midpoint (%d nines)" % nines))
+    return out
+
+
 def membership_cases(rng, n):
     """membership tests against literal tuples of 1..24 members (all scalar literals; with an identifier; with a nested tuple), asked
     with values of every kind a caller's record can hold — also unhashable ones (a list, a dict, a set, a composite id decoded from
@@ -482,6 +557,7 @@ def membership_cases(rng, n):
             cond = ("if", ("cmp", ("id", "x"), op, ("tuple", members)), ("ret", [(L("T"), "1")]), ("else", ("ret", [(L("F"), "1")])))
             prog = Program("e", None, ["u"], cond, {"u": "any", "x": "any"})
             cases.append({"prog": prog, "text": render(prog, rng, "plain"), "envs": [{"u": "u1", "x": v} for v in (a.value, b.value, "zz", 0, [a.value], str(b.value))]})
+    cases += nested_identifier_tuples()
     for _ in range(n):
         k = rng.choice([1, 1, 2, 3, 4, 5, 8, 11, 12, 13, 16, 24, 31, 32, 33, 34, 48, 49, 50, 63, 64, 65, 66, 100, 129])
         kind = rng.choice(["int", "str", "str", "mixed"])
